@@ -157,10 +157,12 @@ def run(tier):
     _gradient_slots(chk)
     # the gradient blocks the sub-flows evaluate are the full polynomial Jacobian (C17.b storage rule), and the event
     # driver advances the same carried extended state as the plain driver (C11.b symplectic protocol)
-    from . import c17, c11
+    from . import c17, c11, c10
     from .common import Relabel
     c17._b_storage(Relabel(chk, {"C17.b": "C16.d-storage"}))
     c11._b_symplectic(Relabel(chk, {"C11.b": "C16.d-event-driver"}), tier)
+    # backward integration runs the same kernel on the negated grid (reversibility through integrate()): C10.a for this integrator
+    c10._a_integrate_times(Relabel(chk, {"C10.a": "C16.d-direction"}), only={"_ExtendedSymplectic"})
     return chk
 
 
